@@ -294,7 +294,11 @@ def pointwise(ctx, tag, n, post, oracle, patterns, backend=None, forms=("var",),
             except Exception as e:
                 ctx.violation(f"{tag}:post-raises:{type(e).__name__}", f"posting the constraint raised {e!r}", ctx.current_case)
                 continue
-            s.ensure(pins)
+            # the pattern is imposed the ways callers write it: a list, or a generator expression handed to ensure()
+            if rng is not None and rng.random() < 0.3:
+                s.ensure(q for q in pins)
+            else:
+                s.ensure(pins)
             res = solve_sat(ctx, s, backend)
             want = oracle(pattern)
             both[1 if want else 0] = True
